@@ -46,6 +46,10 @@ STANDINS = [
      "props": ["C07"], "timeout": {"quick": 900, "thorough": 3600}},
     {"name": "vocab_names", "module": "standins.vocab_names", "props": ["C05"],
      "timeout": {"quick": 900, "thorough": 3600}},
+    {"name": "totality", "module": "standins.totality", "props": ["C02"],
+     "timeout": {"quick": 1500, "thorough": 7200}},
+    {"name": "vocab_formats", "module": "standins.vocab_formats", "props": ["C14"],
+     "timeout": {"quick": 900, "thorough": 3600}},
     {"name": "vocab_relative", "module": "standins.vocab_relative", "props": ["C06"],
      "timeout": {"quick": 900, "thorough": 3600}},
     {"name": "tz_spellings", "module": "standins.tz_spellings", "props": ["C11"],
